@@ -361,10 +361,38 @@ def rule_f(repo, chk):
     chk.exhaustive_rules.append('C15.f every function of the package scanned for direct self-calls')
 
 
+# functions of the pinned tree that build values through the memoising constructor `create_cached` (one shared object per argument tuple
+# and inference state): per-object caches (MRO, filters, execution results) only hit when the object is shared
+CACHED_CONSTRUCTION = {
+    ('jedi.inference.gradual.base', '_LazyGenericBaseClass.infer'): ('GenericClass', 'the wrappers of the bases of a subscripted class: without sharing, the MRO of a shared ancestor is recomputed once per inheritance path (exponential in stacked diamonds)'),
+    ('jedi.inference.gradual.type_var', 'TypeVarClass.py__call__'): ('TypeVar', 'type variables'),
+    ('jedi.inference.star_args', '_iter_nodes_for_param'): ('TreeArguments', 'argument objects of forwarding calls (the signature memoisation is keyed on them)'),
+}
+
+
+def rule_g(repo, chk):
+    chk.clause('C15.g', 'memoising constructors stay memoising: where the pinned tree creates a value through <Class>.create_cached(..) (one shared '
+                        'object per inference state and argument tuple, so that per-object caches hit) the class is not instantiated directly; '
+                        'create_cached itself is memoised per inference state')
+    n = 0
+    for (m, q), (cls, why) in sorted(CACHED_CONSTRUCTION.items()):
+        f = repo.find(m, q)
+        cached = [c for c in calls_in(f, 'create_cached', nested=True) if norm(c.func.value).split('.')[-1] == cls]
+        direct = [c for c in calls_in(f, cls, nested=True) if isinstance(c.func, ast.Name)]
+        n += len(cached)
+        chk.ob('C15.g', bool(cached) and not direct, f, '%s builds %s through create_cached only (%s)' % (q, cls, why),
+               'direct construction: %s' % [short(d) for d in direct] if direct else 'no create_cached call left')
+    chk.floor('C15.g', n, 3, '(create_cached call sites in the listed functions)')
+    cc = repo.find('jedi.inference.base_value', '_ValueWrapperBase.create_cached')
+    decs = [norm(d) for d in cc.decorator_list]
+    ok = any('inference_state_as_method_param_cache' in d for d in decs) and any(d == 'classmethod' for d in decs)
+    chk.ob('C15.g', ok, cc, 'create_cached is a classmethod memoised per inference state (inference_state_as_method_param_cache)', str(decs))
+
+
 def describe(chk):
     chk.undecided('the polynomial bound and termination for all programs; indirect (mutual) recursion between different functions, which is what the '
                   'budgets of C15.a-c are for; RecursionError inside parso')
     chk.assume('termination class T (tree/data descent) is asserted by reading, not proved')
 
 
-RULES = [('C15.a', rule_a), ('C15.b', rule_b), ('C15.c', rule_c), ('C15.d', rule_d), ('C15.e', rule_e), ('C15.f', rule_f)]
+RULES = [('C15.a', rule_a), ('C15.b', rule_b), ('C15.c', rule_c), ('C15.d', rule_d), ('C15.e', rule_e), ('C15.f', rule_f), ('C15.g', rule_g)]
